@@ -465,6 +465,13 @@ def grid_doc():
     return simple_doc([b"\n".join(parts), b"BT /F1 12 Tf 40 500 Td (second page) Tj ET"])[0]
 
 
+def std14_doc(widths):
+    """a standard-14 font (metrics come from the shared FONT_METRICS table) that also carries its own /Widths"""
+    from ..realise.pdfwriter import simple_doc, type1_font
+    f = type1_font("Helvetica", FirstChar=65, LastChar=66, Widths=list(widths), Encoding=PD.Name("WinAnsiEncoding"))
+    return simple_doc([b"BT /F1 10 Tf 40 700 Td (AB) Tj ET", b"BT /F1 10 Tf 40 600 Td (BA) Tj ET"], fonts={"F1": f})[0]
+
+
 def record_history(args):
     """one process, one history: -> list of events with results and table summaries"""
     tid, calls = args
@@ -580,6 +587,8 @@ def direction_b(ck, fp, docs, dev):
     for d in PD.DOCS:
         corpus["generated:" + d] = {"src": docs[d], "password": ""}
     corpus["generated:grid"] = {"src": grid_doc(), "password": ""}
+    corpus["generated:std14-wide"] = {"src": std14_doc((900, 100)), "password": ""}
+    corpus["generated:std14-narrow"] = {"src": std14_doc((100, 900)), "password": ""}
     labels = list(corpus)
     for lab, n in zip(labels, fp.map([{"op": "npages", "src": corpus[x]["src"], "password": corpus[x]["password"]} for x in labels])):
         corpus[lab]["npages"] = n
